@@ -31,7 +31,7 @@ pub fn candidates(prop: &str) -> Vec<Value> {
             }}
         }
         "C18" | "C11" | "C13" => {
-            for g in ["G1", "G2"] { for sch in ["Basic", "MessageAugmentation", "ProofOfPossession"] { for kind in ["sc_lib_to_ref", "sc_ref_to_lib", "tc_lib_to_ref"] {
+            for g in ["G1", "G2"] { for sch in ["Basic", "MessageAugmentation", "ProofOfPossession"] { for kind in ["sc_lib_to_ref", "sc_ref_to_lib", "tc_lib_to_ref", "pok_challenge_ref"] {
                 v.push(json!({"call": "interop", "group": g, "scheme": sch, "kind": kind}));
             }}}
         }
@@ -192,6 +192,9 @@ fn decoders<C: BlsSignatureImpl + PartialEq + Copy + Send + Sync + 'static>(c: &
                 ("SecretKey", Vec::from(&s.sk), Box::new(|b: &[u8]| SecretKey::<C>::try_from(b).is_ok())),
                 ("ProofCommitmentSecret", Vec::from(&x), Box::new(|b: &[u8]| ProofCommitmentSecret::<C>::try_from(b).is_ok())),
                 ("ProofCommitmentChallenge", Vec::from(&y), Box::new(|b: &[u8]| ProofCommitmentChallenge::<C>::try_from(b).is_ok())),
+                ("SecretKeyEnum(G1)", Vec::from(&SecretKeyEnum::G1(SecretKey::<G1>::from_hash(b"enum key"))), Box::new(|b: &[u8]| SecretKeyEnum::try_from(b).is_ok())),
+                ("SecretKeyEnum(G2).from_be_bytes", SecretKeyEnum::G2(SecretKey::<G2>::from_hash(b"enum key")).to_be_bytes(), Box::new(|b: &[u8]| bool::from(SecretKeyEnum::from_be_bytes(b).is_some()))),
+                ("SecretKeyEnum(G1).from_le_bytes", SecretKeyEnum::G1(SecretKey::<G1>::from_hash(b"enum key")).to_le_bytes(), Box::new(|b: &[u8]| bool::from(SecretKeyEnum::from_le_bytes(b).is_some()))),
             ];
             for (name, enc, accepts) in exact {
                 if !accepts(&enc) { return Some(format!("{}: the valid encoding is rejected", name)); }
@@ -485,6 +488,10 @@ fn ephemerals<C: BlsSignatureImpl + PartialEq + Copy + Send + Sync + 'static>(s:
         out.push(("encrypt_key_el_gamal.c1".to_string(), Vec::from(&PublicKey::<C>(s.pk.encrypt_key_el_gamal(&s.sk).unwrap().c1))));
         out.push(("encrypt_key_el_gamal_with_proof.c1".to_string(), Vec::from(&PublicKey::<C>(s.pk.encrypt_key_el_gamal_with_proof(&s.sk).unwrap().ciphertext.c1))));
         out.push(("ProofCommitment::generate".to_string(), Vec::from(&ProofCommitment::<C>::generate(m, s.sig).unwrap().0)));
+        // the proof nonce commitment r1 = r*G, recomputed the way the verifier does: -c*c1 + bp*G
+        let p = s.pk.encrypt_key_el_gamal_with_proof(&s.sk).unwrap();
+        let r1 = p.ciphertext.c1 * (-p.challenge) + <C as Pairing>::PublicKey::generator() * p.blinder_proof;
+        out.push(("encrypt_key_el_gamal_with_proof.r1".to_string(), Vec::from(&PublicKey::<C>(r1))));
         out.push(("split.share1".to_string(), Vec::from(&s.sk.split(2, 3).unwrap()[0])));
     }
     out
@@ -550,6 +557,25 @@ fn interop<C: BlsSignatureImpl + PartialEq + Copy + Send + Sync + 'static>(c: &V
                 if !bool::from(ct.is_valid()) { return Some(format!("the library rejects a reference-sealed ciphertext ({} bytes, {:?})", l, sch)); }
                 match Option::<Vec<u8>>::from(ct.decrypt(&s.sk)) { Some(x) if x == m => {}, _ => return Some(format!("the library does not open a reference-sealed {}-byte message", l)) }
             }
+            None
+        }
+        "pok_challenge_ref" => {
+            // the timestamp challenge, derived independently: y = HashToScalar(enc(u) || le64(t), SALT_POK)
+            let salt: &[u8] = b"BLS_POK__BLS12381_XOF:HKDF-SHA2-256_";
+            let m = b"proof of knowledge message";
+            let sig = s.sk.sign(sch, m).ok()?;
+            let p = ProofOfKnowledgeTimestamp::<C>::generate(m, sig).ok()?;
+            let u = match p.proof { ProofOfKnowledge::Basic { u, .. } => u, ProofOfKnowledge::MessageAugmentation { u, .. } => u, ProofOfKnowledge::ProofOfPossession { u, .. } => u };
+            let mut input = u.to_bytes().as_ref().to_vec(); input.extend_from_slice(&p.timestamp.to_le_bytes());
+            let y = <C as HashToScalar>::hash_to_scalar(input.as_slice(), salt);
+            for t in [0u64, 1, p.timestamp, u64::MAX] {
+                let mut i2 = u.to_bytes().as_ref().to_vec(); i2.extend_from_slice(&t.to_le_bytes());
+                if <C as BlsSignatureProof>::compute_y(u, t) != <C as HashToScalar>::hash_to_scalar(i2.as_slice(), salt) { return Some(format!("compute_y(u, {}) differs from HashToScalar(enc(u) || le64(t), SALT_POK)", t)); }
+            }
+            if sch == SignatureSchemes::MessageAugmentation { return None; }   // known finding F7: Aug proofs never verify
+            let own = p.verify(s.pk, m, None).is_ok();
+            let via_ref = p.proof.verify(s.pk, m, ProofCommitmentChallenge::<C>(y)).is_ok();
+            if own != via_ref || !own { return Some("a timestamp proof does not verify under the independently derived challenge".into()); }
             None
         }
         _ => {
